@@ -977,6 +977,7 @@ package quickfix
 //@   implements sessionState.FixMsgIn
 //@   atcall sendResendRequest @begin arg1 == session.store.#T
 //@   atcall sendResendRequest @end arg2 == s.resendRangeEnd
+//@   ensures after sendResendRequest @keep nextState is resendState ==> unbox(nextState, resendState).messageStash == s.messageStash
 //@   undecided (FieldMap).GetField)/safety:index
 //@   undecided (inSession).FixMsgIn.flush#2
 //@   undecided (inSession).FixMsgIn.bound#2
